@@ -69,6 +69,7 @@ fn main() {
             return;
         }
         "C03" => mon::c03::run(&p),
+        "C04" => mon::c04::run(&p),
         "C06" => mon::c06::run(&p),
         "C07" => mon::c07::run(&p, mon::c07::Which::C07),
         "C14" => mon::c07::run(&p, mon::c07::Which::C14),
